@@ -4139,3 +4139,85 @@ func ruleEveryFontSubtypeRegistered(c *eng.Ctx) {
 	}
 	c.Check(len(missing) == 0, R, "text.(*Extractor).RegisterFontsFromResources#subtypes", fnR.Pos(), "all five text-showing font subtypes have a branch", "font subtype(s) "+strings.Join(missing, ", ")+" have no branch: such fonts are never registered and their text comes out as raw character codes, ToUnicode or not")
 }
+
+// ---------------------------------------------------------------------------------------------------------------
+// R13.10 the token ratio is never used raw.
+
+// R13.10 [C13, C02]
+func ruleTokenRatioDefaulted(c *eng.Ctx) {
+	const R = "R13.10-TOKEN-RATIO-DEFAULTED"
+	_ = R
+	c.Rule(R, "wherever package rag divides or multiplies by SizeConfig.TokensPerChar the operand is the defaulted ratio (the field's value only where it was found greater than zero, the documented 0.25 otherwise), as EstimateTokens does: the field is zero in every configuration written as a struct literal without it, a division by zero gives +Inf, its conversion to int the most negative integer, and the split position computed from it indexes the text at -2^63", 1, 1)
+	n := 0
+	for _, fn := range c.P.ModuleFuncs() {
+		if fn.Pkg == nil || fn.Blocks == nil {
+			continue
+		}
+		sp := eng.ShortPath(fn.Pkg.Pkg.Path())
+		if sp != "rag" && !strings.Contains(sp, eng.PositivePkg) {
+			continue
+		}
+		eng.Instrs(fn, true, func(in ssa.Instruction) {
+			b, ok := in.(*ssa.BinOp)
+			if !ok || (b.Op != token.QUO && b.Op != token.MUL) {
+				return
+			}
+			posFact := func(f eng.Fact) bool {
+				op, x, y, ok := f.Cmp()
+				if !ok {
+					return false
+				}
+				if fx, okx := eng.LoadOfField(x); okx && fx.Field == "TokensPerChar" {
+					if k, isC := y.(*ssa.Const); isC && k.Value != nil && op == token.GTR {
+						return true
+					}
+				}
+				if fy, oky := eng.LoadOfField(y); oky && fy.Field == "TokensPerChar" {
+					if k, isC := x.(*ssa.Const); isC && k.Value != nil && op == token.LSS {
+						return true
+					}
+				}
+				return false
+			}
+			isRatio := func(v ssa.Value) bool {
+				fr, ok := eng.LoadOfField(v)
+				return ok && fr.Field == "TokensPerChar"
+			}
+			for _, side := range []ssa.Value{b.X, b.Y} {
+				if b.Op == token.QUO && side != b.Y {
+					continue
+				}
+				okUse, isUse := true, false
+				if isRatio(side) {
+					isUse = true
+					okUse = eng.GuardedBy(in.Parent(), in.Block(), posFact)
+				} else if ph, isPhi := side.(*ssa.Phi); isPhi {
+					for i, e := range ph.Edges {
+						if !isRatio(e) {
+							continue
+						}
+						isUse = true
+						pred := ph.Block().Preds[i]
+						g := eng.GuardedBy(in.Parent(), pred, posFact)
+						for si, sc := range pred.Succs {
+							if sc == ph.Block() && eng.AnyEdgeFact(eng.Edge{From: pred, Succ: si}, posFact) {
+								g = true
+							}
+						}
+						if !g {
+							okUse = false
+						}
+					}
+				}
+				if !isUse {
+					continue
+				}
+				n++
+				c.Check(okUse, R, fmt.Sprintf("%s#ratio@%s", eng.FuncName(in.Parent()), c.P.Pos(b.Pos())), b.Pos(), "the ratio is known to be positive here", "TokensPerChar is used as it stands in the configuration: for a configuration that leaves it zero the result is +Inf or 0, and a split position of -2^63 panics when the text is indexed")
+			}
+		})
+	}
+	if n == 0 {
+		c.Ok(R, "rag#ratio", token.NoPos, "the field is never an operand of a division or multiplication as it stands")
+	}
+}
